@@ -71,16 +71,43 @@ def run(ck):
             if any(any(u in (field_info(P, p).get('t') or '') for u in UNSHARED_TYPES) for p in path[:-1]):
                 continue
             bare = t_.replace('const ', '').replace('&', '').strip()
-            if bare in shared_types or any(bare == 'std::unique_ptr<%s>' % s or bare.startswith('std::shared_ptr<%s' % s) for s in ()):
-                continue
+            if bare in shared_types:
+                continue      # member of an analysed class type: its own fields are analysed (calls in the callee, references via the parameter)
             if fresh_local_object(f, i):
                 continue
             n_acc += 1
             acc.setdefault(path[0], []).append((r, tuple(path), w, f, i, ls))
     ck.floor('C36.access', 'accesses to fields of the shared node-state classes from thread roots', n_acc, 400)
+    # copying a whole object of an analysed class reads every field of it (e.g. `config_copy = node_.config()`)
+    n_copy = 0
+    for r in L.roots:
+        for fid, base in L.must[r].items():
+            f = L.fn_by_id[fid]
+            if f.kind in ('ctor', 'dtor'):
+                continue
+            for i in f.walk():
+                src = whole_object_copy(f, i, shared_types)
+                if src is None:
+                    continue
+                cls, node = src
+                n_copy += 1
+                acc.setdefault(cls + '::*', []).append((r, (cls + '::*',), False, f, node, base | L.held_at(f, node)))
+    ck.extra['whole_object_copies'] = n_copy
 
     races = {}
-    for outer, lst in acc.items():
+    # a whole-object read conflicts with a write of any field of that class
+    stars = {k: v for k, v in acc.items() if k.endswith('::*')}
+    for outer, lst in list(acc.items()):
+        if outer.endswith('::*'):
+            continue
+        extra = []
+        for sk, sv in stars.items():
+            cls = sk[:-3]
+            for a in lst:
+                if a[2] and any(p.rsplit('::', 1)[0] == cls for p in a[1]):
+                    extra += [(b[0], a[1], False, b[3], b[4], b[5]) for b in sv]
+                    break
+        lst = lst + extra
         writes = [a for a in lst if a[2]]
         for a in writes:
             for b in lst:
@@ -99,7 +126,9 @@ def run(ck):
                 k = pa if len(pa) >= len(pb) else pb
                 races.setdefault(k, []).append((a, b))
     fields = set()
-    for lst in acc.values():
+    for k_, lst in acc.items():
+        if k_.endswith('::*'):
+            continue
         for a in lst:
             fields.add(a[1])
     ck.extra['fields_analysed'] = len(fields)
@@ -114,6 +143,18 @@ def run(ck):
             prs = None
         if not prs:
             n_ok += 1
+            accs = [a for lst in acc.values() for a in lst if a[1] == k]
+            nw = len([a for a in accs if a[2]])
+            threads = sorted({a[0] for a in accs})
+            common = None
+            for a in accs:
+                common = set(a[5]) if common is None else common & set(a[5])
+            ck.ob('C36.race', 'C36.race/' + name, True, accs[0][3].loc(accs[0][4]) if accs else '',
+                  '%s: %d access(es), %d write(s), from %d thread root(s); %s' % (
+                      name, len(accs), nw, len(threads),
+                      'never written after construction' if nw == 0 else
+                      ('every access holds {%s}' % ', '.join(sorted(short(m) for m in common)) if common else
+                       'no two conflicting accesses can run concurrently without a common mutex')))
             continue
         # prefer a witness whose second access is a read on a different root
         prs.sort(key=lambda ab: (ab[0][0] == ab[1][0], len(ab[0][5]) + len(ab[1][5])))
@@ -125,8 +166,7 @@ def run(ck):
                                                                                    ', '.join(sorted(short(m) for m in ls)) or 'no lock', ' -> '.join(L.chain(r, f)))
         ck.ob('C36.race', 'C36.race/' + name, False, a[3].loc(a[4]),
               'accesses to %s from concurrent threads share no mutex (%d conflicting pairs)' % (name, len(prs)), [describe(a), describe(b)])
-    ck.ob('C36.race', 'C36.race/other-fields', True, '', '%d other shared fields: every pair of concurrent conflicting accesses holds a common mutex '
-          '(or the field is never written after construction)' % n_ok)
+    ck.floor('C36.race', 'shared fields analysed', len(fields), 80)
 
 
 def ordered_by_spawn(L, a, b):
@@ -173,3 +213,29 @@ def fresh_local_object(f, i):
             c = f.nodes[f.strip(init)].get('callee') or ''
             return c.startswith(('std::make_shared', 'std::make_unique'))
         return False
+
+
+def whole_object_copy(f, i, shared_types):
+    """(class, source node) when node i copies a whole object of an analysed class out of shared storage: copy construction or
+    copy assignment whose source is not a local value."""
+    nd = f.nodes[i]
+    src = None
+    if nd['k'] == 'CXXConstructExpr' and nd.get('copymove') and len(f.kids(i)) == 1:
+        src = f.kids(i)[0]
+        cls = (nd.get('t') or '').replace('const ', '').strip()
+    elif nd['k'] == 'CXXOperatorCallExpr' and nd.get('op') == '=' and len(f.kids(i)) == 3:
+        src = f.kids(i)[2]
+        cls = (f.nodes[f.kids(i)[1]].get('t') or '').replace('const ', '').strip()
+    else:
+        return None
+    if cls not in shared_types:
+        return None
+    s = f.strip(src)
+    sn = f.nodes[s]
+    if sn['k'] == 'DeclRefExpr' and sn.get('dk') in ('Var', 'ParmVar') and not (sn.get('ts') or sn.get('t') or '').rstrip().endswith('&') and not sn.get('g'):
+        return None          # copy of a local value
+    if sn['k'] in ('CXXConstructExpr', 'CXXTemporaryObjectExpr', 'CXXBindTemporaryExpr', 'InitListExpr', 'CXXFunctionalCastExpr'):
+        return None          # a temporary
+    if sn['k'] in ('CallExpr', 'CXXMemberCallExpr') and not (sn.get('t') or '').startswith('const ') and not sn.get('lv'):
+        return None          # a function returning by value
+    return cls, s
